@@ -160,12 +160,15 @@ def search_sequence(r, ncase):
         if r.random() < 0.4:
             vals["T2"] = r.uniform(30, 120, size=3)
         sigma2 = float([1.0, 0.25][r.integers(2)])
+        opts = [{}, {}, {"max_nstate": 2}, {"max_nstate": 1}, {"init": [0, 0, 0.5]}][r.integers(5)]   # simulate options of the call
+        grad = [["T2", "b1"], ["b1"], ["T2"], True][r.integers(4)]
+        gvars = ["T2", "b1"] if grad is True else grad
         try:
             with warnings.catch_warnings():
                 warnings.simplefilter("ignore")
-                c = seq.crlb(["T2", "b1"], sigma2=sigma2)(**vals)
-                c2, g2 = seq.crlb(["T2", "b1"], gradient=["T2", "b1"], sigma2=sigma2)(**vals)
-                _, jac, hes = seq.hessian(["T2", "b1"])(**vals)
+                c = seq.crlb(["T2", "b1"], sigma2=sigma2, options=opts)(**vals)
+                c2, g2 = seq.crlb(["T2", "b1"], gradient=grad, sigma2=sigma2, options=opts)(**vals)
+                _, jac, hes = seq.hessian(["T2", "b1"], gvars, options=opts)(**vals)
                 ref = stats.crlb(jac, sigma2=sigma2)
                 ref2, gref = stats.crlb(jac, H=hes, sigma2=sigma2)
                 sig = seq.signal(**vals)
@@ -178,6 +181,8 @@ def search_sequence(r, ncase):
             continue
         checked += 1
         if not (np.allclose(c, ref) and np.allclose(c2, ref2) and np.allclose(g2, gref) and np.allclose(ci, ciref)):
-            dis.append({"kind": "c17-sequence", "problems": [("Sequence.crlb/confint differ from stats functions on the sequence's Jacobian/Hessian",)],
-                        "input": {k: np.asarray(v).tolist() for k, v in vals.items()}})
+            dis.append({"kind": "c17-sequence", "problems": [("Sequence.crlb/confint differ from stats functions on the sequence's Jacobian/Hessian",
+                                                              np.ravel(c)[:2].tolist(), np.ravel(ref)[:2].tolist(), np.ravel(c2)[:2].tolist(),
+                                                              np.ravel(ref2)[:2].tolist(), np.ravel(g2)[:3].tolist(), np.ravel(gref)[:3].tolist())],
+                        "input": {**{k: np.asarray(v).tolist() for k, v in vals.items()}, "options": opts, "gradient": grad}})
     return checked, dis
